@@ -148,6 +148,35 @@ func c17Sites(r *wk.Rand, s *gen.Shape, raw any, env *gen.Env, path, chain []str
 				}
 				break
 			}
+		}
+		// a string key with characters that error texts like to quote or escape
+		if ks := s.Keys; ks != nil && ks.Kind == gen.KString {
+			for _, alt := range []string{"o'brien", "a \"quoted\" key", "back\\slash"} {
+				alt := alt
+				if ref.Check(ks, alt, env) != "" || len(keys) == 0 {
+					continue
+				}
+				if _, exists := m[alt]; exists {
+					continue
+				}
+				k := keys[0]
+				rekey := func() {
+					v := m[k]
+					delete(m, k)
+					m[alt] = v
+				}
+				for _, st := range c17Sites(r, s.Vals, m[k], env, cp(path, alt), cp(chain, "map"), func(nv any) { m[alt] = nv }, depth+1) {
+					st := st
+					inner := st.apply
+					st.apply = func() { rekey(); inner() }
+					st.kind += "(key with quote characters)"
+					out = append(out, st)
+				}
+				break
+			}
+		}
+		if ks, kenv := s.Keys, env; ks != nil && ks.Kind == gen.KInt && ks.Units == "" {
+			_ = kenv
 			// a key that is no integer at all
 			if s.Max == nil || int64(len(m)) < *s.Max {
 				var val any
@@ -419,6 +448,15 @@ func c17Judge(c *wk.Ctx, t schema.Type, descr string, root any, site c17Site, op
 	}
 	wit["error"] = err.Error()
 	var ce *schema.ConstraintError
+	if errors.As(err, &ce) {
+		// reading the error must not change it: render it again and look at the path before and after
+		before := strings.Join(ce.Path, "\x00")
+		again := err.Error()
+		if again != wit["error"] || strings.Join(ce.Path, "\x00") != before {
+			c.Violation("C17:error-changes-when-rendered:"+op, fmt.Sprintf("%s: rendering the error twice gives %q and then %q (path %v)", op, wit["error"], again, ce.Path), wit)
+			return
+		}
+	}
 	if !errors.As(err, &ce) {
 		c.Violation("C17:not-a-constraint-error:"+op+":"+site.kind, fmt.Sprintf("%s rejected the value (corruption %s at %v) with an error that is not a ConstraintError, so it carries no path: %v", op, site.kind, site.path, err), wit)
 		return
